@@ -186,6 +186,8 @@ Section Coerce.
             match a_val a with
             | VVar n _ =>
                 match alookup (n_val n) vs with
+                | Some PNone => if is_nonnull (ad_type ad) then Rejected REJ_COERCION 0
+                                else continue_with (Some PNone)
                 | Some v => continue_with (Some v)
                 | None => absent
                 end
